@@ -69,7 +69,8 @@ let () =
          let cfg = { has_handler = (fun t -> List.mem (int_of_n t) hl); has_default = (df = "1");
                      never_reply = (fun t -> List.mem (int_of_n t) nrl) } in
          let fl = { data_checks_size_first = (fls.[0] = '1'); gsv_uses_checked_read = (fls.[1] = '1');
-                    neg_aborts_on_loop_end = (fls.[2] = '1'); close_wait_only_if_sent = (fls.[3] = '1') } in
+                    neg_aborts_on_loop_end = (fls.[2] = '1'); close_wait_only_if_sent = (fls.[3] = '1');
+                    first_offers_default = (String.length fls > 4 && fls.[4] = '1') } in
          let tab = if dec = "-" then [] else
              List.map (fun e -> match String.split_on_char ':' e with
                  | [m; k] -> (m, k) | _ -> failwith "dec") (String.split_on_char ';' dec) in
